@@ -1216,6 +1216,38 @@ fn query(w: &World, c: &mut Cur) -> Result<Vec<u128>, String> {
                 .map_err(|e| e.to_string())?;
             Ok(vec![r.amount.u128()])
         }
+        // walk the factory's pair listing the way a client does (continue after the last pair returned) with the given page
+        // size; answer: the pair contracts visited, in ascending address order (duplicates kept)
+        "walk" => {
+            let limit: Option<u32> = c.opt_num().map(|x| x as u32);
+            let mut seen: Vec<u128> = vec![];
+            let mut cursor: Option<[AssetInfo; 2]> = None;
+            let mut pages = 0;
+            loop {
+                let r: haloswap::factory::PairsResponse = q
+                    .query_wasm_smart(
+                        addr_s(0),
+                        &FactoryQueryMsg::Pairs {
+                            start_after: cursor.clone(),
+                            limit,
+                        },
+                    )
+                    .map_err(|e| e.to_string())?;
+                if r.pairs.is_empty() {
+                    break;
+                }
+                for p in r.pairs.iter() {
+                    seen.push(addr_id(&p.contract_addr));
+                }
+                cursor = Some(r.pairs.last().unwrap().asset_infos.clone());
+                pages += 1;
+                if pages > 400 {
+                    return Err("the walk does not end".to_string());
+                }
+            }
+            seen.sort();
+            Ok(seen)
+        }
         _ => panic!("harness: unknown query"),
     }
 }
